@@ -220,7 +220,7 @@ PROPS = {
     },
     'C07': {
         'v_units': [],
-        'k_units': ['quote', 'lexclass', 'qvalue'],
+        'k_units': ['quote', 'lexclass', 'qvalue', 'typesetk'],
         'level': 'other',
         'explanation': (
             'Quoting-decision kernel only. Kani proves, loop-free over EVERY char (complete), that '
@@ -235,7 +235,8 @@ PROPS = {
             'printer the listings of variables go through (yash-env/src/variable/value.rs Value::quote / Display for QuotedValue) is run on '
             'five concrete values: a scalar is its quoted form, an array is "(" + the items quoted one by one, one space between them + ")". '
             'NOT decided: longer texts, the real lexer re-reading the output (async), and the state-listing built-ins themselves (alias, '
-            'typeset -p, trap, ...), which need the shell to evaluate its own output.'),
+            'typeset -p, trap, ...), which need the shell to evaluate its own output.'
+            ' Unit typesetk (Kani, concrete variables): print_one of typeset/print_variables.rs prints, for a scalar or valueless variable, exactly the line a fresh shell must read to recreate it - built-in name, attribute options, `-- ` in front of a name that begins with a hyphen (decided on the name, not on its quoted form), the quoted name, the quoted value. The array case (two lines) is NOT checked (the harness exceeded 900 s).'),
         'trusted_base': ['Kani 0.68.0 + CBMC 6.11'],
         'assumptions': [
             'the always-quote set is my reading of XCU 2.2 plus yash\'s Unicode blanks',
